@@ -217,10 +217,24 @@ def coq_eval_cases(tag, imports, ctype, cases, checkers, shard=None, timeout=900
     os.makedirs(d, exist_ok=True)
     for old in glob.glob(os.path.join(d, "*")):
         os.remove(old)
-    shards = [cases[i:i + shard] for i in range(0, len(cases), shard)] or [[]]
-    files = []
-    for k, sh_cases in enumerate(shards):
-        fn = os.path.join(d, "cases_%03d.v" % k)
+    # shards by number of cases AND by source size: a coqc that parses several MB of byte-list terms needs GBs,
+    # and 16 of them run in parallel
+    max_bytes = 400_000
+    shards, starts, cur, cur_b = [], [], [], 0
+    for i, cs in enumerate(cases):
+        if cur and (len(cur) >= shard or cur_b + len(cs) > max_bytes):
+            shards.append(cur)
+            cur, cur_b = [], 0
+        if not cur:
+            starts.append(i)
+        cur.append(cs)
+        cur_b += len(cs)
+    if cur or not shards:
+        if not cur:
+            starts.append(0)
+        shards.append(cur)
+
+    def write(fn, sh_cases):
         with open(fn, "w") as f:
             f.write(imports + "\n")
             f.write("Definition cases : list (%s) := [\n" % ctype)
@@ -231,6 +245,11 @@ def coq_eval_cases(tag, imports, ctype, cases, checkers, shard=None, timeout=900
                 t = "failing %s cases" % name
                 tup = t if tup is None else "(%s, %s)" % (t, tup)
             f.write("Definition R := Eval vm_compute in %s.\nPrint R.\n" % tup)
+
+    files = []
+    for k, sh_cases in enumerate(shards):
+        fn = os.path.join(d, "cases_%03d.v" % k)
+        write(fn, sh_cases)
         files.append(fn)
 
     def one(fn):
@@ -239,14 +258,33 @@ def coq_eval_cases(tag, imports, ctype, cases, checkers, shard=None, timeout=900
 
     res = {c: [] for c in checkers}
     errors = []
+    retry = []
     with ThreadPoolExecutor(max_workers=16) as ex:
         for k, (rc, out) in enumerate(ex.map(one, files)):
             parsed = _parse_lists(out, checkers) if rc == 0 else None
             if parsed is None:
-                errors.append("shard %d: coqc rc=%d: %s" % (k, rc, out[-1500:]))
+                retry.append((k, rc, out))
                 continue
             for c in checkers:
-                res[c] += [k * shard + i for i in parsed[c]]
+                res[c] += [starts[k] + i for i in parsed[c]]
+    # a shard whose coqc was killed (out of memory while its neighbours ran) or timed out: once more, alone, in small pieces
+    for k, rc0, out0 in retry:
+        if rc0 not in (-9, 137, 124, -15) or len(shards[k]) <= 1:
+            errors.append("shard %d: coqc rc=%d: %s" % (k, rc0, out0[-1500:]))
+            continue
+        piece = max(1, len(shards[k]) // 8)
+        for j in range(0, len(shards[k]), piece):
+            fn = os.path.join(d, "cases_%03d_r%03d.v" % (k, j))
+            write(fn, shards[k][j:j + piece])
+            rc, out = one(fn)
+            parsed = _parse_lists(out, checkers) if rc == 0 else None
+            if parsed is None:
+                errors.append("shard %d (retried alone, cases %d..): coqc rc=%d: %s" % (k, starts[k] + j, rc, out[-1500:]))
+                continue
+            for c in checkers:
+                res[c] += [starts[k] + j + i for i in parsed[c]]
+    for c in checkers:
+        res[c].sort()
     return res, errors
 
 
